@@ -133,6 +133,41 @@ def binding():
         bad = copy.deepcopy(sc)
         bad["expect"]["boxes"].reverse()
         out.append(("C01 replay rejects reversed box order", c01.run_read(chk, w, bad, 3, 5, "wild") is not None))
+        # code -> spec: a recorded operation history is accepted by OpTrace.tla, and rejected (with the failing clause named)
+        # once a single recorded field is corrupted
+        from harness import optrace
+        lines = None
+        for hseed in range(1, 60):
+            lines, _ = optrace.record_history(chk, hseed, ["strain"], 1, ndims=3, big=True, nops=2)
+            st = [ln for ln in lines if ln["ev"] == "Strain" and ln["R"]["k"] == "ok" and len(ln["R"]["fields"]) >= 2
+                  and len(ln["R"]["lev"][0]) >= 2]
+            if st:
+                break
+        out.append(("OpTrace accepts a recorded history", optrace.validate(chk, lines, "selftest") == []))
+
+        def corrupted(fn):
+            c = copy.deepcopy(lines)
+            fn([ln for ln in c if ln["ev"] == "Strain" and ln["R"]["k"] == "ok" and len(ln["R"]["fields"]) >= 2 and len(ln["R"]["lev"][0]) >= 2][0])
+            return [v[3] for v in optrace.validate(chk, c, "selftest")]
+
+        def swap_comps(ln):
+            b = ln["R"]["lev"][0][0]["comps"]
+            b[0], b[1] = b[1], b[0]
+
+        def swap_boxes(ln):
+            L = ln["R"]["lev"][0]
+            L[0]["comps"], L[1]["comps"] = L[1]["comps"], L[0]["comps"]
+
+        def mm(ln):
+            ln["R"]["lev"][0][0]["mm"][0] = "0x0.0p+0/0x0.0p+0"
+
+        def src_changed(ln):
+            ln["S"]["lev"][0][0]["comps"][0] = "0000000000000000:1x1x1"
+        out.append(("OpTrace rejects swapped components (box-data)", corrupted(swap_comps)[:1] == ["box-data"]))
+        out.append(("OpTrace rejects swapped boxes (box-data)", corrupted(swap_boxes)[:1] == ["box-data"]))
+        out.append(("OpTrace rejects a wrong min/max entry", corrupted(mm)[:1] == ["min-max-rows"]))
+        out.append(("OpTrace rejects a modified source", "input-modified" in corrupted(src_changed)))
+        out.append(("OpTrace rejects a dropped field", corrupted(lambda ln: ln["R"]["fields"].pop())[:1] == ["fields"]))
     finally:
         chk.cleanup()
     return out
